@@ -35,6 +35,9 @@ import (
 	"verif/harness/vlib"
 )
 
+// ibCases: the in-block probe cases printed by TLC, per shape of the creating transaction (read-only after start)
+var ibCases map[ibShape][]ibDesc
+
 func memCfg(minInit, maxInit, maxAdd int, full bool) string {
 	maxLeaves := maxInit + maxAdd + 1
 	maxH := 0
@@ -146,6 +149,11 @@ func main() {
 	var cross int64
 	t0 := time.Now()
 
+	// 0. parents created earlier in the block under validation: TLC proves the transcribed MidState lookups
+	// sound for every shape of the creating transaction and prints the probes (InBlock.tla)
+	ibCases = genInBlock(c)
+	c.Cov("inblock_shapes", len(ibCases))
+
 	// 3. real chains (concurrently with the TLC part)
 	cov := &chainCov{}
 	var behs, steps int
@@ -224,6 +232,9 @@ func finish(c *vlib.Ctx, st *stats, traces int64) {
 	c.Cov("base_status", st.bases)
 	c.Cov("max_leaves", st.maxN)
 	c.Cov("v2txn_not_decisive", st.nondec)
+	c.Cov("inblock_prefixes_built", st.ibPrefixes)
+	c.Cov("inblock_states_skipped", st.ibSkipped)
+	c.Cov("inblock_probe_classes", st.ibClasses)
 	// informational only (no verdict depends on error texts): the carrier block is accepted with an empty
 	// supplement, so every rejection is caused by the carried element
 	c.Cov("supplement_rejections_by_error_text", st.suppErr)
@@ -243,7 +254,7 @@ func finish(c *vlib.Ctx, st *stats, traces int64) {
 	for _, n := range st.asks {
 		evals += n
 	}
-	for _, d := range []string{"shim", "vte", "v2txn", "supp", "supp-used", "supp-placed", "supp-used-placed"} {
+	for _, d := range []string{"shim", "vte", "v2txn", "supp", "supp-used", "supp-placed", "supp-used-placed", "inblock", "inblock-block"} {
 		if st.asks[d] == 0 {
 			c.Infra("vacuity: door %s never used", d)
 		}
@@ -256,7 +267,10 @@ func finish(c *vlib.Ctx, st *stats, traces int64) {
 	need := []string{"shim"}
 	for _, k := range []kind{kSC, kSF, kV2FC, kCIE} {
 		for _, r := range txRoles(k) {
-			need = append(need, "vte:"+r, "v2txn:"+r)
+			if r != "storage-proof-index-empty-file" {
+				need = append(need, "vte:"+r)
+			}
+			need = append(need, "v2txn:"+r)
 		}
 	}
 	for _, k := range []kind{kSC, kSF, kFC} {
@@ -271,6 +285,20 @@ func finish(c *vlib.Ctx, st *stats, traces int64) {
 			}
 		}
 		need = append(need, "supp-used-placed:"+usedRole(k)+"/genuine-earlier", "supp-used-placed:"+usedRole(k)+"/forged-earlier")
+	}
+	// in-block parents: the doors that can accept must have given both verdicts (alone and inside a whole block);
+	// the v2 siafund and v2 contract doors never accept
+	need = append(need, "inblock:v2sc", "inblock:v1sc", "inblock:v1sf", "inblock:v1fc", "inblock-block:v2sc", "inblock-block:v1sc", "inblock-block:v1sf", "inblock-block:v1fc")
+	for _, d := range []string{"inblock:v2sf", "inblock:v2fc"} {
+		if v := st.verdicts[d]; v == nil || v[0] == 0 {
+			c.Infra("vacuity: door %s never asked", d)
+		}
+	}
+	for _, cl := range []string{"v2sc/att-id/aligned-body", "v2sc/sf-id/aligned-body", "v2sc/fc-id/aligned-body", "v2sc/sc-id/own-body", "v2sc/sc-id/other-body", "v2sc/fresh-id/other-body",
+		"v2sf/sf-id/own-body", "v2fc/fc-id/own-body", "v1sc/sf-id/aligned-body", "v1sc/fc-id/aligned-body", "v1sf/sc-id/aligned-body", "v1sf/fc-id/aligned-body", "v1fc/sc-id/aligned-body", "v1fc/sf-id/aligned-body", "v1fc/fc-id/own-body"} {
+		if st.ibClasses[cl] == 0 {
+			c.Infra("vacuity: in-block probe class %s never presented", cl)
+		}
 	}
 	for _, d := range need {
 		v := st.verdicts[d]
